@@ -1,3 +1,4 @@
+import MiniconfVerif.Lemmas.GenTieEnums
 import MiniconfVerif.Lemmas.GenTieTuples
 import MiniconfVerif.Lemmas.GenTieValue
 import MiniconfVerif.Lemmas.WalkFrame
@@ -135,5 +136,40 @@ theorem source_option_access_is_model (io : Io) (closed : Bool) (inner : Tree) (
     simp only [optSelf, Bool.false_eq_true, if_false, Impls.Option.serialize_by_key, Impls.Option.deserialize_by_key,
       Tree.walk, gateErr]
     exact ⟨hs _ _, (hd _ _).1, by rw [(hd _ _).2]⟩
+
+
+open MiniconfVerif.Gen MiniconfVerif.Gen.Core MiniconfVerif.Gen.Impls MiniconfVerif.GenTie in
+/-- `Result<T, E>` and `Bound<T>`: `serialize_by_key` / `deserialize_by_key` as translated from impls.rs (the value as
+the generated inductive `ResultSt` / `BoundSt`, or-patterns split, the payload put back into its constructor after a
+`&mut` access) are the model's walk at the enum-like node: the payload of the present variant is accessed exactly when
+the key names that variant, every other key of the node — and every key of `Bound::Unbounded` — is `Absent` one level
+up and changes nothing. -/
+theorem source_result_bound_access_is_model (io : Io) (other : Tree) (ks : KeySrc) :
+    (∀ (st : ResultSt Tree), (∀ s, ks.next (.named ["Ok", "Err"]) ≠ .error (.panic s)) →
+      ∀ (c0 c1 : Tree → KeySrc → Except (Error Unit) Nat × Tree),
+        (∀ t ks, resOfGen (c0 t ks).1 = (t.walk io .de ks).res ∧ (c0 t ks).2 = (t.walk io .de ks).tree) →
+        (∀ t ks, resOfGen (c1 t ks).1 = (t.walk io .de ks).res ∧ (c1 t ks).2 = (t.walk io .de ks).tree) →
+        ∃ st' r, Result.deserialize_by_key keysNextM c0 c1 st ks = .val (st', r) ∧
+          resOfGen r = (Tree.walk io .de (resultTree other st) ks).res ∧
+          resultTree other st' = (Tree.walk io .de (resultTree other st) ks).tree) ∧
+    (∀ (st : BoundSt Tree), (∀ s, ks.next (.named ["Included", "Excluded"]) ≠ .error (.panic s)) →
+      ∀ (c : Tree → KeySrc → Except (Error Unit) Nat × Tree),
+        (∀ t ks, resOfGen (c t ks).1 = (t.walk io .de ks).res ∧ (c t ks).2 = (t.walk io .de ks).tree) →
+        ∃ st' r, Bound.deserialize_by_key keysNextM c st ks = .val (st', r) ∧
+          resOfGen r = (Tree.walk io .de (boundTree other st) ks).res ∧
+          boundTree other st' = (Tree.walk io .de (boundTree other st) ks).tree) ∧
+    (∀ (st : ResultSt Tree), (∀ s, ks.next (.named ["Ok", "Err"]) ≠ .error (.panic s)) →
+      ∀ (c0 c1 : Tree → KeySrc → Except (Error Unit) Nat),
+        (∀ t ks, resOfGen (c0 t ks) = (t.walk io .ser ks).res) → (∀ t ks, resOfGen (c1 t ks) = (t.walk io .ser ks).res) →
+        ∃ r, Result.serialize_by_key keysNextM c0 c1 st ks = .val r ∧
+          resOfGen r = (Tree.walk io .ser (resultTree other st) ks).res) ∧
+    (∀ (st : BoundSt Tree), (∀ s, ks.next (.named ["Included", "Excluded"]) ≠ .error (.panic s)) →
+      ∀ (c : Tree → KeySrc → Except (Error Unit) Nat), (∀ t ks, resOfGen (c t ks) = (t.walk io .ser ks).res) →
+        ∃ r, Bound.serialize_by_key keysNextM c st ks = .val r ∧
+          resOfGen r = (Tree.walk io .ser (boundTree other st) ks).res) :=
+  ⟨fun st hnp c0 c1 h0 h1 => result_de_tie io other ks st hnp c0 c1 h0 h1,
+   fun st hnp c h => bound_de_tie io other ks st hnp c h,
+   fun st hnp c0 c1 h0 h1 => result_ser_tie io other ks st hnp c0 c1 h0 h1,
+   fun st hnp c h => bound_ser_tie io other ks st hnp c h⟩
 
 end MiniconfVerif.C01
